@@ -845,7 +845,7 @@ func (s *Stream) parseFunctionArgs(funcExpr string, data map[string]any) ([]any,
 				return nil, fmt.Errorf("failed to execute nested function '%s': %v", arg, err)
 			}
 			args[i] = result
-		} else if value, exists := lookupRowField(data, arg); exists {
+		} else if value, exists := s.lookupArgField(data, arg); exists {
 			// If it's a data field (qualified table.col falls back to bare col,
 			// since window/join output rows are keyed by the bare column name).
 			args[i] = value
@@ -922,12 +922,38 @@ func lookupRowField(data map[string]any, key string) (any, bool) {
 	if v, ok := data[key]; ok {
 		return v, true
 	}
+	// a nested path of the row (dev.a with dev a map) is that path, not the top-level column a
+	if fieldpath.IsNestedField(key) {
+		if v, ok := fieldpath.GetNestedField(data, key); ok {
+			return v, true
+		}
+		// the row has the qualifier as a column of its own: the path is absent, and the qualifier
+		// is not a table alias to be stripped
+		if _, has := data[fieldpath.ExtractTopLevelField(key)]; has {
+			return nil, false
+		}
+	}
 	if dot := strings.LastIndex(key, "."); dot >= 0 && dot < len(key)-1 {
 		if v, ok := data[key[dot+1:]]; ok {
 			return v, true
 		}
 	}
 	return nil, false
+}
+
+// lookupArgField resolves a function argument that names a column. Like lookupRowField, but the
+// qualifier of a dotted name is stripped only when it can be a table or source alias (or the row is
+// a window/join output row): in a plain query d.a.b is a nested path of the row and, when the row
+// has no such path, NULL - not the top-level column b.
+func (s *Stream) lookupArgField(data map[string]any, key string) (any, bool) {
+	dot := strings.Index(key, ".")
+	if dot <= 0 || s.config.NeedWindow || len(s.config.JoinConfigs) > 0 || key[:dot] == s.config.SourceAlias {
+		return lookupRowField(data, key)
+	}
+	if v, ok := data[key]; ok {
+		return v, true
+	}
+	return fieldpath.GetNestedField(data, key)
 }
 
 // smartSplitArgs intelligently splits arguments, considering bracket nesting and quotes
